@@ -59,10 +59,15 @@ static void sa_case(const Pattern &p, bool zero_rowsum, bool estimate_rho) { hx:
     if (!rows.empty()) hx::prove_all("smoothed aggregation: interpolation rows sum to one on zero-row-sum rows with a strong neighbour", rows);
     Dense rd=dense_of(*R); std::vector<scalar> l, r; for (size_t i=0;i<rd.size();++i) for (size_t j=0;j<rd[i].size();++j) { l.push_back(rd[i][j]); r.push_back(pd[j][i]); } hx::prove_eq_vec("R = P^T", l, r); },coo); }
 
-static void rs_case(const Pattern &p, bool trunc) { hx::CaseOptions coo; coo.max_paths=64; coo.max_depth=160; hx::run_case(std::string("ruge_stuben/")+(trunc?"trunc/":"notrunc/")+p.name, [&]() {
+static void rs_case(const Pattern &p, bool trunc, bool wide_trunc=false) { hx::CaseOptions coo; coo.max_paths=64; coo.max_depth=160; hx::run_case(std::string("ruge_stuben/")+(trunc?(wide_trunc?"trunc-wide/":"trunc/"):"notrunc/")+p.name, [&]() {
     SCrs A=sym_matrix(p,true,true); for (auto &v : A.val) hx::assume(hx::le(scalar(1e-12),v*v));   // entries are not at the library's absolute zero threshold (2 eps)
-    auto Am=hx::to_amgcl(A); int n=p.n; typedef co::ruge_stuben<BE> RS; RS::params prm; prm.do_trunc=trunc; RS rs(prm); std::shared_ptr<M> P, R;
+    auto Am=hx::to_amgcl(A); int n=p.n; typedef co::ruge_stuben<BE> RS; RS::params prm; prm.do_trunc=trunc; if (wide_trunc) { prm.eps_strong=0.05f; prm.eps_trunc=0.2f; }   /* truncation threshold above the strength threshold: strong entries can really be truncated */ RS rs(prm); std::shared_ptr<M> P, R;
     try { std::tie(P,R)=rs.transfer_operators(*Am); } catch (const amgcl::error::empty_level&) { hx::count("empty level paths"); return; }
+    // the real C/F split and strength flags of this path (private statics of the coarsening, compiled with -fno-access-control; the repeated
+    // comparisons are the decisions already taken on this path): an F point with a strong C neighbour must receive interpolation weights
+    { std::vector<char> cf(n,'U'); amgcl::backend::crs<char,ptrdiff_t,ptrdiff_t> S; RS::connect(*Am,prm.eps_strong,S,cf); RS::cfsplit(*Am,S,cf); bool ok=true; std::string bad;
+      for (int i=0;i<n;++i) { if (cf[i]=='C') { ok=ok&&(P->ptr[i+1]-P->ptr[i]==1); continue; } bool strongC=false; for (ptrdiff_t j=Am->ptr[i];j<Am->ptr[i+1];++j) if (S.val[j] && cf[Am->col[j]]=='C') strongC=true; if (strongC && P->ptr[i+1]==P->ptr[i]) { ok=false; if (bad.empty()) bad="F point "+std::to_string(i)+" has a strong C neighbour but an empty interpolation row"; } }
+      hx::require("Ruge-Stuben: every F point with a strong C neighbour interpolates (truncation never removes all of its weights)", ok, bad); }
     Dense pd=dense_of(*P); std::vector<hx::F> rows; int nz_rows=0; for (int i=0;i<n;++i) { if (P->ptr[i+1]==P->ptr[i]) continue; nz_rows++; scalar s=0; for (size_t c=0;c<P->ncols;++c) s+=pd[i][c]; rows.push_back(hx::eq(s,scalar(1))); }
     // every row with a negative (strong) off-diagonal interpolates; rows of P sum to one (zero row sum, symmetric A)
     hx::prove_all("Ruge-Stuben: interpolation rows sum to one on zero-row-sum rows that interpolate", rows); hx::count("interpolating rows",nz_rows);
@@ -79,6 +84,6 @@ int main(int argc, char **argv) {
     for (auto &p : sp) { aggregates_case(p,true,0.08f); if (p.n<=3 || T) aggregates_case(p,true,0.5f); }
     for (int k=0;k<(T?40:10);++k) aggregates_case(hx::random_pattern(3+rng.below(2),3,rng,2,true).n==3 ? hx::mask_pattern(3,3,rng.next()%512,true) : hx::mask_pattern(4,4,rng.next()&0xffff,true),false,0.08f);
     for (auto &p : sp) if (p.n<=3 || T || rng.below(3)==0) { block_case(p,2); if (p.n<=3) block_case(p,3); }
-    for (auto &p : sp) if (hx::connected(p)) { sa_case(p,true,false); if (p.n<=3 || T) { sa_case(p,false,false); sa_case(p,true,true); } rs_case(p,true); if (p.n<=3 || T) rs_case(p,false); }
+    for (auto &p : sp) if (hx::connected(p)) { sa_case(p,true,false); if (p.n<=3 || T) { sa_case(p,false,false); sa_case(p,true,true); } rs_case(p,true); if (p.n<=3 || T) rs_case(p,false); if (p.n>=3 && (p.n<=3 || T || rng.below(2)==0)) rs_case(p,true,true); }
     return hx::finish();
 }
